@@ -18,6 +18,18 @@
     server's view shifted by the delay, ordered by time.  It composes the heap-order lemma (the
     served event is a minimum of all queued events, `Proofs/HeapOrder.lean`), the window-covering
     lemma and the hop lemmas over the main loop (`Proofs/SimExact.lean`, `Proofs/SimIdentity.lean`);
+  * `C14_progress` (and `_raw`): **progress** — for a non-empty such trace with times strictly
+    within `Duration::MAX`, valid limit fractions, `continue_after_all_normal` off, and caps and
+    loop fuel of at least `4·|trace|` (`max_sim_iterations`, `max_trace_length` zero or ≥ 4n,
+    fuel ≥ 4n − 1), the run does not fault, does not stop early and ends because all normal
+    packets were processed; it performs exactly `4n − k` iterations, `k ≤ n` the number of
+    NormalRecv events still queued when the third stop test fires (so between `3n` and `4n − 1`:
+    the last packet's NormalRecv is never served).  Proof in `Proofs/SimProgress.lean`;
+  * `C14_identity_total` (and `_raw_total`, `_sim_total`): the composed property **without** the
+    hypothesis on the stop reason, under the explicit cap hypotheses of `C14_progress`;
+    `C14_strict_bound_needed` shows that "strictly within" cannot be weakened: with delay 0 a packet
+    exactly `Duration::MAX` after the first one is never served (`pick_next` reads the offset
+    `Duration::MAX` as "nothing to do") and the run ends with an empty-queue stop instead;
   * `C14_identity_partial`: the earlier composed statement in count form (kept: it does not need
     the time-ordering and range hypotheses);
   * `C14_S1_parsed_limit_never_exceeded`: the window-covering lemma — the limit `parse_trace`
@@ -35,6 +47,7 @@ import MbVerif.Proofs.SimOnlyPackets
 import MbVerif.Proofs.SimMatch
 import MbVerif.Proofs.SimRaw
 import MbVerif.Proofs.SimIdentity
+import MbVerif.Proofs.SimProgress
 import MbVerif.Props.C15
 import MbVerif.Spec.C14
 
@@ -244,6 +257,152 @@ theorem C14_identity_sim {σ : Type} (ρ : Oracle σ) (budget : Nat) (raw : List
       ((sim ρ budget [] [] (parseTraceRaw raw delay) delay maxLen on orc).trace.map
         (SimEvent.shift ((parseTraceRaw raw delay).firstTime.getD 0))) = true :=
   C14_identity_raw ρ budget raw delay _ orc rfl hs hr hB hstop
+
+/-! ### progress: non-binding caps imply the stop reason -/
+
+/-- **C14, progress.**  A run without machines on a non-empty parsed trace whose `s` times and
+    `r` times are in time order and *strictly* within `Duration::MAX` (two network delays to
+    spare), with a network without explicit packets-per-second limit, limit fractions that
+    `Framework::new` accepts, `continue_after_all_normal` off, `max_sim_iterations` and
+    `max_trace_length` each zero (unlimited) or at least `4·|trace|`, and model loop fuel of at
+    least `4·|trace| − 1`: the run ends because all normal packets were processed (so: no fault,
+    no cap, no early empty queue, fuel not exhausted).  The loop performs at least `3·|trace|`
+    and at most `4·|trace| − 1` iterations — exactly `4·|trace|` minus the number of NormalRecv
+    events still queued in the final state, in which no normal packet is queued. -/
+theorem C14_progress {σ : Type} (ρ : Oracle σ) (budget : Nat) (trace : List TraceLine) (delay : Nat) (a : Args) (orc : σ)
+    (hne : trace ≠ []) (hnet : a.network = ⟨delay, none⟩) (hs : Asc (sTimes trace)) (hr : Asc (rTimes trace))
+    (hB : ∀ l ∈ trace, ((l.1 : Nat) : Int) + 2 * (delay : Int) < durMax)
+    (hfrac : Validate.fracOK a.fpClient = true ∧ Validate.fracOK a.fbClient = true ∧
+      Validate.fracOK a.fpServer = true ∧ Validate.fracOK a.fbServer = true)
+    (hcont : a.continueAfterAllNormal = false)
+    (hit : a.maxSimIterations = 0 ∨ 4 * trace.length ≤ a.maxSimIterations)
+    (hlen : a.maxTraceLength = 0 ∨ 4 * trace.length ≤ a.maxTraceLength)
+    (hbud : 4 * trace.length ≤ budget + 1) :
+    (simAdvanced ρ budget [] [] (parseTrace trace delay) a orc).stop = .noNormal ∧
+    3 * trace.length ≤ (simAdvanced ρ budget [] [] (parseTrace trace delay) a orc).stream.length ∧
+    (simAdvanced ρ budget [] [] (parseTrace trace delay) a orc).stream.length + 1 ≤ 4 * trace.length ∧
+    ∃ stf, (simAdvanced ρ budget [] [] (parseTrace trace delay) a orc).final = some stf ∧
+      stf.sq.noNormalPackets = true ∧
+      (simAdvanced ρ budget [] [] (parseTrace trace delay) a orc).stream.length + tcount isNR stf.sq = 4 * trace.length := by
+  obtain ⟨lim, hlim, hfs, hfr⟩ := C14_S1_parsed_limit_never_exceeded trace delay (-(delay : Int)) hs hr
+  obtain ⟨hstop, stf, hfin, hnn, hcnt, hge, hle⟩ :=
+    sim_progress ρ budget trace delay lim a orc hne hnet hlim hs hr hfs hfr hB hfrac hcont hit hlen hbud
+  exact ⟨hstop, by omega, by omega, stf, hfin, hnn, hcnt⟩
+
+/-- progress for raw input traces with all direction tokens (padding lines are not packets) -/
+theorem C14_progress_raw {σ : Type} (ρ : Oracle σ) (budget : Nat) (raw : List RawLine) (delay : Nat) (a : Args) (orc : σ)
+    (hne : normalLines raw ≠ []) (hnet : a.network = ⟨delay, none⟩)
+    (hs : Asc (sTimes (normalLines raw))) (hr : Asc (rTimes (normalLines raw)))
+    (hB : ∀ l ∈ normalLines raw, ((l.1 : Nat) : Int) + 2 * (delay : Int) < durMax)
+    (hfrac : Validate.fracOK a.fpClient = true ∧ Validate.fracOK a.fbClient = true ∧
+      Validate.fracOK a.fpServer = true ∧ Validate.fracOK a.fbServer = true)
+    (hcont : a.continueAfterAllNormal = false)
+    (hit : a.maxSimIterations = 0 ∨ 4 * (normalLines raw).length ≤ a.maxSimIterations)
+    (hlen : a.maxTraceLength = 0 ∨ 4 * (normalLines raw).length ≤ a.maxTraceLength)
+    (hbud : 4 * (normalLines raw).length ≤ budget + 1) :
+    (simAdvanced ρ budget [] [] (parseTraceRaw raw delay) a orc).stop = .noNormal ∧
+    3 * (normalLines raw).length ≤ (simAdvanced ρ budget [] [] (parseTraceRaw raw delay) a orc).stream.length ∧
+    (simAdvanced ρ budget [] [] (parseTraceRaw raw delay) a orc).stream.length + 1 ≤ 4 * (normalLines raw).length := by
+  rw [parseTraceRaw_eq]
+  obtain ⟨h1, h2, h3, _⟩ := C14_progress ρ budget (normalLines raw) delay a orc hne hnet hs hr hB hfrac hcont hit hlen hbud
+  exact ⟨h1, h2, h3⟩
+
+/-- **C14, composed and total: without machines the simulator reproduces the input trace.**
+    `C14_identity` without the hypothesis on the stop reason: for every non-empty parsed trace
+    whose `s` times and `r` times are in time order and strictly within `Duration::MAX` (two
+    network delays to spare), every network delay, every argument record without an explicit
+    packets-per-second limit, with limit fractions in [0, 1], `continue_after_all_normal` off and
+    caps that are zero or at least four times the number of packets (any filters), and every
+    oracle, the returned trace satisfies `C14.holds`. -/
+theorem C14_identity_total {σ : Type} (ρ : Oracle σ) (budget : Nat) (trace : List TraceLine) (delay : Nat) (a : Args) (orc : σ)
+    (hne : trace ≠ []) (hnet : a.network = ⟨delay, none⟩) (hs : Asc (sTimes trace)) (hr : Asc (rTimes trace))
+    (hB : ∀ l ∈ trace, ((l.1 : Nat) : Int) + 2 * (delay : Int) < durMax)
+    (hfrac : Validate.fracOK a.fpClient = true ∧ Validate.fracOK a.fbClient = true ∧
+      Validate.fracOK a.fpServer = true ∧ Validate.fracOK a.fbServer = true)
+    (hcont : a.continueAfterAllNormal = false)
+    (hit : a.maxSimIterations = 0 ∨ 4 * trace.length ≤ a.maxSimIterations)
+    (hlen : a.maxTraceLength = 0 ∨ 4 * trace.length ≤ a.maxTraceLength)
+    (hbud : 4 * trace.length ≤ budget + 1) :
+    C14.holds trace delay a.onlyClientEvents
+      ((simAdvanced ρ budget [] [] (parseTrace trace delay) a orc).trace.map
+        (SimEvent.shift ((parseTrace trace delay).firstTime.getD 0))) = true :=
+  C14_identity ρ budget trace delay a orc hnet hs hr (fun l hl => by have := hB l hl; omega)
+    (C14_progress ρ budget trace delay a orc hne hnet hs hr hB hfrac hcont hit hlen hbud).1
+
+/-- the same for raw input traces with all direction tokens -/
+theorem C14_identity_raw_total {σ : Type} (ρ : Oracle σ) (budget : Nat) (raw : List RawLine) (delay : Nat) (a : Args) (orc : σ)
+    (hne : normalLines raw ≠ []) (hnet : a.network = ⟨delay, none⟩)
+    (hs : Asc (sTimes (normalLines raw))) (hr : Asc (rTimes (normalLines raw)))
+    (hB : ∀ l ∈ normalLines raw, ((l.1 : Nat) : Int) + 2 * (delay : Int) < durMax)
+    (hfrac : Validate.fracOK a.fpClient = true ∧ Validate.fracOK a.fbClient = true ∧
+      Validate.fracOK a.fpServer = true ∧ Validate.fracOK a.fbServer = true)
+    (hcont : a.continueAfterAllNormal = false)
+    (hit : a.maxSimIterations = 0 ∨ 4 * (normalLines raw).length ≤ a.maxSimIterations)
+    (hlen : a.maxTraceLength = 0 ∨ 4 * (normalLines raw).length ≤ a.maxTraceLength)
+    (hbud : 4 * (normalLines raw).length ≤ budget + 1) :
+    C14.holds (normalLines raw) delay a.onlyClientEvents
+      ((simAdvanced ρ budget [] [] (parseTraceRaw raw delay) a orc).trace.map
+        (SimEvent.shift ((parseTraceRaw raw delay).firstTime.getD 0))) = true :=
+  C14_identity_raw ρ budget raw delay a orc hnet hs hr (fun l hl => by have := hB l hl; omega)
+    (C14_progress_raw ρ budget raw delay a orc hne hnet hs hr hB hfrac hcont hit hlen hbud).1
+
+theorem fracOK_zero : Validate.fracOK (0 : F64) = true := by decide +kernel
+
+/-- the same for `sim` (network fixed to the delay, no packets-per-second limit, no iteration cap,
+    fractions 0, both sides kept): only the trace-length cap and the model's fuel remain -/
+theorem C14_identity_sim_total {σ : Type} (ρ : Oracle σ) (budget : Nat) (raw : List RawLine) (delay maxLen : Nat) (on : Bool) (orc : σ)
+    (hne : normalLines raw ≠ [])
+    (hs : Asc (sTimes (normalLines raw))) (hr : Asc (rTimes (normalLines raw)))
+    (hB : ∀ l ∈ normalLines raw, ((l.1 : Nat) : Int) + 2 * (delay : Int) < durMax)
+    (hlen : maxLen = 0 ∨ 4 * (normalLines raw).length ≤ maxLen)
+    (hbud : 4 * (normalLines raw).length ≤ budget + 1) :
+    (sim ρ budget [] [] (parseTraceRaw raw delay) delay maxLen on orc).stop = .noNormal ∧
+    C14.holds (normalLines raw) delay false
+      ((sim ρ budget [] [] (parseTraceRaw raw delay) delay maxLen on orc).trace.map
+        (SimEvent.shift ((parseTraceRaw raw delay).firstTime.getD 0))) = true := by
+  have hp := C14_progress_raw ρ budget raw delay
+    { network := ⟨delay, none⟩, maxTraceLength := maxLen, maxSimIterations := 0,
+      continueAfterAllNormal := false, onlyClientEvents := false, onlyNetworkActivity := on,
+      fpClient := 0, fbClient := 0, fpServer := 0, fbServer := 0 } orc hne rfl hs hr hB
+    ⟨fracOK_zero, fracOK_zero, fracOK_zero, fracOK_zero⟩ rfl (Or.inl rfl) hlen hbud
+  exact ⟨hp.1, C14_identity_sim ρ budget raw delay maxLen on orc hs hr (fun l hl => by have := hB l hl; omega) hp.1⟩
+
+/-! ### non-vacuity and sharpness (concrete runs, evaluated by the kernel) -/
+
+/-- an oracle for concrete runs (never consulted: there are no machines) -/
+def zeroOracle : Oracle Unit := ⟨fun _ => (0, ()), fun _ _ => (0, ())⟩
+
+/-- a three-packet trace: client sends at 0 and 7 ns, receives at 5 ns; delay 3 ns -/
+def demoRaw : List RawLine := [⟨0, .s⟩, ⟨2, .sp⟩, ⟨5, .r⟩, ⟨7, .sn⟩]
+
+/-- non-vacuity of `C14_identity_sim_total` / `C14_progress_raw`: the demo trace meets every
+    hypothesis (with the tight fuel `4·3 − 1` and the tight cap `4·3`), and its run indeed stops
+    because all normal packets were processed, after `4·3 − 1 = 11` iterations -/
+example :
+    normalLines demoRaw ≠ [] ∧ Asc (sTimes (normalLines demoRaw)) ∧ Asc (rTimes (normalLines demoRaw)) ∧
+    (∀ l ∈ normalLines demoRaw, ((l.1 : Nat) : Int) + 2 * ((3 : Nat) : Int) < durMax) ∧
+    ((12 : Nat) = 0 ∨ 4 * (normalLines demoRaw).length ≤ 12) ∧ 4 * (normalLines demoRaw).length ≤ 11 + 1 ∧
+    (sim zeroOracle 11 [] [] (parseTraceRaw demoRaw 3) 3 12 false ()).stop = .noNormal ∧
+    (sim zeroOracle 11 [] [] (parseTraceRaw demoRaw 3) 3 12 false ()).stream.length = 11 := by
+  unfold Asc
+  decide +kernel
+
+/-- the caps are tight: one less and the run stops on the cap / the fuel instead -/
+example :
+    (sim zeroOracle 11 [] [] (parseTraceRaw demoRaw 3) 3 11 false ()).stop = .maxTrace ∧
+    (sim zeroOracle 10 [] [] (parseTraceRaw demoRaw 3) 3 12 false ()).stop = .loopFuel := by
+  decide +kernel
+
+/-- **"strictly within `Duration::MAX`" cannot be weakened to "within"**: with delay 0, a packet
+    exactly `Duration::MAX` after the first one meets every hypothesis of `C14_identity` except
+    the one on the stop reason, and is never served — `pick_next` reads the offset
+    `Duration::MAX` as "nothing to do" — so the run ends with an empty-queue stop after the four
+    events of the first packet. -/
+theorem C14_strict_bound_needed :
+    (∀ l ∈ [((0 : Nat), true), (durMax, true)], ((l.1 : Nat) : Int) + 2 * ((0 : Nat) : Int) ≤ durMax) ∧
+    (sim zeroOracle 8 [] [] (parseTrace [(0, true), (durMax, true)] 0) 0 0 false ()).stop = .queueEmpty ∧
+    (sim zeroOracle 8 [] [] (parseTrace [(0, true), (durMax, true)] 0) 0 0 false ()).stream.length = 4 := by
+  decide +kernel
 
 /-- **S2, second hop** (exact when the bottleneck adds nothing): a normal TunnelSent at the clock
     queues one normal TunnelRecv for the other side exactly one configured delay later. -/
